@@ -1589,6 +1589,13 @@ where
     ) -> Result<()> {
         match state {
             State::Suspect => {
+                // We left the cluster or know we have been declared down:
+                // refuting the suspicion would keep this identity alive in
+                // the eyes of members that haven't learned about it yet
+                if self.connection_state == ConnectionState::Undead {
+                    return Ok(());
+                }
+
                 let increase_incarnation = match self.incarnation.cmp(&incarnation) {
                     // This can happen when a member received an update about
                     // someone else suspecting us but hasn't received our
